@@ -15,7 +15,9 @@ RULE = ("The finite set of unit pairs is enumerated completely in every run with
         "(T in [0,1e9] K, levels in [-300,300] dB). Oracle: formulas written from the definitions (affine temperature "
         "scales; k*log10(x/ref), k=10 power-like / 20 amplitude-like, references 1 mW, 1 W, 1 V, 1 uV, 1 A, 1 uA, "
         "1 Ohm, 20 uPa, 1e-12 W/m2, 1e-12 W; Np=ln(AR)=ln(PR)/2). Checks: formula, u->v->u == x, u->u == x, "
-        "a(+/-)b == 10log10(10^(a/10)(+/-)10^(b/10)) dB for every bel/decibel-type unit. Non-trivial: u != v, or "
+        "a(+/-)b == 10log10(10^(a/10)(+/-)10^(b/10)) dB for every bel/decibel-type unit, also with the right operand "
+        "written with the other prefix (dBm + Bm); conversions of quantities that carry an uncertainty give the same "
+        "value. Non-trivial: u != v, or "
         "identity on an offset/logarithmic unit, with x not in {0,1}. Distinct = distinct case JSON.")
 ASSUMPTIONS = [
     "dBx<->dBy pairs the documentation does not promise (e.g. dBuA->dBA) are not demanded",
